@@ -104,13 +104,8 @@ pub fn parse(s: &str) -> Parsed {
         }
         let int_val: u128 = int_part.trim_start_matches('0').parse().unwrap_or(0);
         let whole = int_val.saturating_mul(unit);
-        // fraction: floor and ceil of frac * unit / 10^k using the first 30 digits (unit <= 3.6e12, so 30 digits decide floor/ceil up to an error < 1e-17 ns; treat as inexact when digits remain)
-        let digits: String = frac_part.chars().take(30).collect();
-        let k = digits.len() as u32;
-        let fv: u128 = if digits.is_empty() { 0 } else { digits.parse().unwrap_or(0) };
-        let scale = 10u128.pow(k);
-        let num = fv * unit; // < 1e30 * 3.6e12 fits u128 (3.4e38)? 1e30*3.6e12 = 3.6e42 does not: use k <= 24
-        let _ = num;
+        // fraction: floor and ceil of frac * unit / 10^k from the first 24 digits (24 digits x unit <= 3.6e12 fits u128;
+        // the remaining digits only decide whether the term is exact)
         let (flo, fhi) = {
             let digits24: String = frac_part.chars().take(24).collect();
             let k = digits24.len() as u32;
@@ -121,7 +116,6 @@ pub fn parse(s: &str) -> Parsed {
             let exact = n % scale == 0 && frac_part.chars().skip(24).all(|c| c == '0');
             (fl, if exact { fl } else { fl + 1 })
         };
-        let _ = scale;
         lo = lo.saturating_add(whole.saturating_add(flo));
         hi = hi.saturating_add(whole.saturating_add(fhi));
     }
